@@ -117,6 +117,13 @@ def run(prop, tier):
                                      key=hist_features)
     fam["chains"] = {"steps": steps + 1, "generated": ctotal, "replayed": len(ch), "exhaustive": len(ch) == ctotal}
     hs = hs + ch
+    if prop == "C16":
+        # one long derivation path: Select and QMetaData steps on one key (set, changed, set back on different nodes)
+        psteps = 7 if tier == "quick" else 9
+        ph, st = gen_histories(prop, "path", "qmdpath", psteps, chain_only=True)
+        rep.add_tlc(st)
+        fam["paths"] = {"steps": psteps, "generated": len(ph), "replayed": len(ph), "exhaustive": True}
+        hs = hs + ph
     if nrand:
         rs, st = gen_histories(prop, "rand", focus, rdepth, simulate=f"num={max(1, nrand // 160)}",
                                extra_args=["-depth", str(rdepth + 1), "-seed", str(common.seed() + 3)])
